@@ -230,6 +230,7 @@ func checkC09(c *Ctx) {
 	sdq := p.MethodDecl(pkgGorm, "SoftDeleteQueryClause", "ModifyStatement")
 	c.Touch(sdq)
 	checkSoftDeletePair(p, rm, sdq)
+	checkFilterOnce(c, rm)
 	// the marker travels with the filter: deriving a statement copies every entry of Clauses
 	checkC06Clone(c, rm, map[string]bool{"Clauses": true})
 }
